@@ -635,29 +635,37 @@ where
         let prio_indices = prioritized_indices(&self.bin_ops.ops, &self.nodes);
 
         let mut num_inds = prio_indices.clone();
-        let mut priorities = self
+        // priority, index, and commutativity of the operators that have not been pre-computed
+        let mut remaining_ops = self
             .bin_ops
             .ops
             .iter()
-            .map(|o| o.op.prio)
-            .collect::<SmallVec<[i64; N_NODES_ON_STACK]>>();
+            .map(|o| (o.op.prio, o.idx, o.op.is_commutative))
+            .collect::<SmallVec<[(i64, usize, bool); N_NODES_ON_STACK]>>();
         let mut used_prio_indices = ExprIdxVec::new();
-
-        let mut already_declined: SmallVec<[bool; N_NODES_ON_STACK]> =
-            smallvec::smallvec![false; self.nodes.len()];
 
         for (i, &bin_op_idx) in prio_indices.iter().enumerate() {
             let num_idx = num_inds[i];
             let node_1 = &self.nodes[num_idx];
             let node_2 = &self.nodes[num_idx + 1];
             if let (DeepNode::Num(num_1), DeepNode::Num(num_2)) = (node_1, node_2) {
-                if !(already_declined[num_idx] || already_declined[num_idx + 1]) {
+                let (prio, idx, is_commutative) = remaining_ops[num_idx];
+                // The numbers can only be pre-computed, if they are not operands of neighbors
+                // that have not been pre-computed. The neighbor on the left takes the number
+                // first if its priority is not lower unless it is the same commutative operator.
+                // The neighbor on the right takes the number first if its priority is higher.
+                let left_declines = num_idx > 0 && {
+                    let (prio_l, idx_l, _) = remaining_ops[num_idx - 1];
+                    prio_l > prio || (prio_l == prio && !(is_commutative && idx_l == idx))
+                };
+                let right_declines =
+                    num_idx + 1 < remaining_ops.len() && remaining_ops[num_idx + 1].0 > prio;
+                if !(left_declines || right_declines) {
                     let bin_op_result =
                         self.bin_ops.ops[bin_op_idx].apply(num_1.clone(), num_2.clone());
                     self.nodes[num_idx] = DeepNode::Num(bin_op_result);
                     self.nodes.remove(num_idx + 1);
-                    already_declined.remove(num_idx + 1);
-                    priorities.remove(num_idx);
+                    remaining_ops.remove(num_idx);
                     // reduce indices after removed position
                     for num_idx_after in num_inds.iter_mut() {
                         if *num_idx_after > num_idx {
@@ -665,19 +673,7 @@ where
                         }
                     }
                     used_prio_indices.push(bin_op_idx);
-                } else if num_idx > 0 && num_idx < priorities.len() - 1 {
-                    if already_declined[num_idx + 1]
-                        && priorities[num_idx + 1] > priorities[num_idx]
-                    {
-                        already_declined[num_idx] = true;
-                    }
-                    if already_declined[num_idx] && priorities[num_idx] > priorities[num_idx + 1] {
-                        already_declined[num_idx + 1] = true;
-                    }
                 }
-            } else {
-                already_declined[num_idx] = true;
-                already_declined[num_idx + 1] = true;
             }
         }
 
